@@ -658,7 +658,8 @@ def obs_geometry(ds):
         r = e.get_index_for_point(p)
         hits.append(None if r is None else int(r.linear_index))
     import shapely
-    q = shapely.box(*[float(v) for v in e.bounds]).buffer(-0.2 * min(e.bounds[2] - e.bounds[0], e.bounds[3] - e.bounds[1]))
+    b = [float(v) for v in e.bounds]           # (plain floats: the arithmetic below must not depend on the type the bounds come in)
+    q = shapely.box(*b).buffer(-0.2 * min(b[2] - b[0], b[3] - b[1]))
     tree = sorted(int(x) for x in e.strtree.query(q, predicate='intersects')) if not q.is_empty else []
     return {'class': type(e).__name__, 'polygons': rings_of(e), 'centres': plain(e.face_centres), 'lookups': hits, 'tree': tree,
             'bounds': [float(v) for v in e.bounds], 'mask': plain(e.mask)}
